@@ -32,18 +32,30 @@ def _case_at(ctx, ops, i):
 
 
 def _clause_class(cfg_line, verdict):
-    """Stable fingerprint: the violated clause plus the coarse configuration class."""
+    """Stable fingerprint: the violated clause, the coarse configuration class and the packet class
+    (hook, protocol, family, lo or not, connection state)."""
     t = verdict.split()
-    clause = t[1] if len(t) > 1 else "unknown"
+    clause = t[1].split(":")[0] if len(t) > 1 else "unknown"
+    if len(t) > 1 and t[1].startswith("config_contract:"):
+        clause = ":".join(t[1].split(":")[:2])      # config_contract:<field>
     f = cfg_line.split()
     cls = []
     if len(f) >= 25:
         cls.append("tproxy" if f[6] == "TPROXY" else "redirect")
         if f[18] == "1":
             cls.append("dns")
-        if f[21] == "1":
+        if f[0] == "cfg" and f[21] == "1":
             cls.append("v6")
-    return clause + ":" + "+".join(cls)
+        if f[0] == "envcfg":
+            cls.append("env")
+    pk = ""
+    for x in t[2:]:
+        if x.startswith("packet=p_"):
+            q = x[len("packet="):].split("_")
+            if len(q) >= 13:
+                lo = "lo" if "lo" in (q[8], q[9]) else "nolo"
+                pk = ":" + "-".join([q[1], q[3], "v" + q[2], lo, q[12].lower()])
+    return clause + ":" + "+".join(cls) + pk
 
 
 def oracle(ctx, stream, case_lines, rep):
@@ -68,7 +80,7 @@ def oracle(ctx, stream, case_lines, rep):
                 case = _case_at(ctx, ops, i)
                 cfg = next((l for l in case if l.startswith("cfg") or l.startswith("envcfg")), "")
                 return ("c20:" + _clause_class(cfg, v),
-                        "the rules the real compiler emits violate clause '%s' for a packet" % v.split()[1],
+                        "the real istio-iptables code violates clause '%s' (oracle on the real output)" % v.split()[1],
                         {"stream": st, "ops": case, "oracle_verdict": v, "correspondence": rep})
     return None
 
@@ -94,26 +106,35 @@ def _oracle_all(ctx):
                     case = _case_at(ctx, g, i)
                     cfg = next((l for l in case if l.startswith("cfg") or l.startswith("envcfg")), "")
                     ctx.violation("c20:" + _clause_class(cfg, v),
-                                  "the rules the real compiler emits violate clause '%s' for a packet" % v.split()[1],
+                                  "the real istio-iptables code violates clause '%s' (oracle on the real output)" % v.split()[1],
                                   {"stream": st, "ops": case, "oracle_verdict": v}, True)
                     break
 
 
+LIVE_BUDGET_S = 30.0
+
+
 def _live(ctx):
-    """Optional grounding on the real tools (evidence only, never a verdict): a live probe of the kernel
-    facts Netfilter.lean assumes, and acceptance of a deterministic sample of the REAL restore texts by
-    the installed iptables-restore / ip6tables-restore --noflush, both inside `unshare -n`.
-    Skipped silently when unshare / iptables-restore / a usable namespace is not available."""
+    """Optional grounding on the real tools: a live probe of the kernel facts Netfilter.lean assumes, and
+    acceptance of a deterministic sample of the REAL restore texts by the installed iptables-restore /
+    ip6tables-restore --noflush, both inside `unshare -n`. Skipped silently when unshare / iptables-restore /
+    a usable namespace is not available or too slow; the whole step is capped at LIVE_BUDGET_S seconds of wall
+    time. Evidence only, with one exception: when the probe RAN (its baseline fact is OK) and reports that
+    nat/PREROUTING IS consulted for a local connection re-entering on lo, the kernel fact the cross-hook
+    theorems rest on (natConsulted) does not hold on this kernel: that breaks the tie."""
     import re
     import shutil
     import subprocess
-    live = {"available": False}
+    import time
+    t_end = time.time() + LIVE_BUDGET_S
+    left = lambda: max(0.0, t_end - time.time())
+    live = {"available": False, "budget_s": LIVE_BUDGET_S}
     ctx.extra["live"] = live
     if not (shutil.which("unshare") and shutil.which("iptables-restore") and shutil.which("ip6tables-restore")):
         return
     try:
         ok = subprocess.run(["unshare", "-n", "iptables-restore", "--noflush"], input=b"*nat\nCOMMIT\n",
-                            capture_output=True, timeout=20).returncode == 0
+                            capture_output=True, timeout=min(10, left())).returncode == 0
     except Exception:
         ok = False
     if not ok:
@@ -121,14 +142,21 @@ def _live(ctx):
     live["available"] = True
     probe = os.path.join(os.path.dirname(os.path.dirname(os.path.abspath(__file__))), "harness", "c20", "probe.py")
     try:
-        r = subprocess.run(["unshare", "-n", "python3", probe], capture_output=True, timeout=120, text=True)
-        facts = [l.split()[1:3] for l in r.stdout.split("\n") if l.startswith("FACT ")]
+        r = subprocess.run(["unshare", "-n", "python3", probe], capture_output=True, timeout=max(1, min(15, left())), text=True)
+        facts = [l.split()[1:3] for l in r.stdout.split("\n") if l.startswith("FACT ") and len(l.split()) >= 3]
         live["kernel_facts"] = {k: v for k, v in facts}
         ctx.count("live.kernel_facts.ok", sum(1 for _, v in facts if v == "OK"))
         ctx.count("live.kernel_facts.different", sum(1 for _, v in facts if v != "OK"))
+        fd = dict(facts)
+        ran = fd.get("baseline-refused") == "OK" and fd.get("nat-OUTPUT-REDIRECT-captures-local-connection") == "OK"
         for k, v in facts:
             if v != "OK":
-                ctx.log("live probe: kernel fact '%s' differs from Netfilter.lean's assumption (evidence only)" % k)
+                ctx.log("live probe: kernel fact '%s' differs from Netfilter.lean's assumption" % k)
+                if ran and k.startswith("nat-PREROUTING-not-consulted-"):
+                    ctx.tie_broken("kernel-fact:" + k,
+                                   "the live probe ran on this kernel and found nat/PREROUTING consulted for a locally generated "
+                                   "connection re-entering on lo; natConsulted (Netfilter.lean) and every cross-hook theorem assume the "
+                                   "opposite:\n" + r.stdout[-2000:])
     except Exception:
         pass
     # acceptance of real restore texts
@@ -140,6 +168,8 @@ def _live(ctx):
     cases, cur = [], None
     for i, l in enumerate(o):
         if l.startswith("case"):
+            if len(cases) > 2000:
+                break
             cur = {"v4": [], "v6": []}
             cases.append(cur)
         elif l.startswith("r ") and cur is not None and i < len(m) and m[i] != "none":
@@ -148,25 +178,25 @@ def _live(ctx):
     tried = accepted = 0
     rejected = []
     for c in cases:
-        if tried >= ctx.n(40, 400):
+        if tried >= ctx.n(40, 400) or left() < 1.0:
             break
         text4, text6 = "\n".join(c["v4"]) + "\n", "\n".join(c["v6"]) + "\n"
         if not c["v4"] or named.search(text4) or named.search(text6):
             continue  # group / user names the sandbox cannot resolve
-        tried += 1
         try:
             script = "iptables-restore --noflush < %s" % os.path.join(ctx.work, "live.v4")
             open(os.path.join(ctx.work, "live.v4"), "w").write(text4)
             if c["v6"]:
                 open(os.path.join(ctx.work, "live.v6"), "w").write(text6)
                 script += " && ip6tables-restore --noflush < %s" % os.path.join(ctx.work, "live.v6")
-            r = subprocess.run(["unshare", "-n", "sh", "-c", script], capture_output=True, timeout=30, text=True)
+            r = subprocess.run(["unshare", "-n", "sh", "-c", script], capture_output=True, timeout=max(1, min(5, left())), text=True)
+            tried += 1
             if r.returncode == 0:
                 accepted += 1
             else:
                 rejected.append((r.stderr or r.stdout).strip()[:200])
         except Exception:
-            tried -= 1
+            break  # too slow here: stop sampling, keep what we have
     live["restore_texts_tried"], live["restore_texts_accepted"] = tried, accepted
     live["restore_rejections"] = rejected[:5]
     ctx.count("live.restore.accepted", accepted)
@@ -224,8 +254,11 @@ def run(ctx):
                 "interfaces, tcp/udp/other, conntrack states, marks); distinct = hash of (ops, implementation outputs); "
                 "non-trivial = configuration accepted by the real code")
     ctx.assumptions = [
-        "kernel netfilter behaves as lean/IstioModel/C20/Netfilter.lean says (written from the iptables manual pages; cross-checked "
-        "only against a second, independently written interpreter in the harness)",
+        "kernel netfilter behaves as lean/IstioModel/C20/Netfilter.lean says (written from the iptables manual pages; cross-checked on "
+        "every run against a second, independently written interpreter, and - where unshare -n and iptables-restore exist - against "
+        "live kernel probes; in particular nat/PREROUTING is not consulted for a locally generated connection re-entering on lo)",
+        "the raw table (CT --zone rules of DNS capture) has no semantics in the model: it is proved never to decide or change a packet, "
+        "conntrack zones themselves are only compared as rule text",
         "rules are restored into empty tables (pod network namespace); pre-existing rules are outside the model",
         "packets at OUTPUT carry a socket owner; UID/GID/group/interface names are canonical tokens compared by equality "
         "(no 'eth+' wildcards, no numeric aliases of names); ports and marks are canonical decimal numerals",
@@ -310,7 +343,8 @@ MANIFEST = {
                    "written interpreter and, where unshare -n and iptables-restore exist, against live kernel probes and the real "
                    "tool's acceptance of sampled texts - evidence only); harness, generators, oracle. Assumed: rules restored into empty "
                    "tables; sockets have owners; identities/interfaces are canonical tokens; CONNMARK state across packets, policy "
-                   "routing, nftables backend, FillConfigFromEnvironment not modelled. Recorded corners (kube-virt traffic ignores outbound exclusions / is captured twice in TPROXY mode, DNS port 53 on lo, "
+                   "routing, nftables backend not modelled; FillConfigFromEnvironment is modelled (RawConfig.fill, getLocalIsV6) with the host's "
+                   "passwd / resolv.conf content as observed inputs. Recorded corners (kube-virt traffic ignores outbound exclusions / is captured twice in TPROXY mode, DNS port 53 on lo, "
                    "inbound excludes ignored with an explicit list, 2nd proxy UID shadowed, GID block lacks the DNS variant, TPROXY "
                    "mode does not exempt the tunnel port) are proved as witnesses and replayed on the real rule text; none is a defect "
                    "fixed or listed."),
